@@ -175,12 +175,14 @@ def _check(c, orig, model, input_db, span, kwargs, result, case):
     Sd = {nm: dev(nm, S[nm]) for nm in tnames + ynames}
     # ---- 2. measurement equations where observed
     for ei, (coefs, wco) in enumerate(zip(lin.meq, lin.meq_w)):
-        yname = ynames[ei]
+        yname = spec["meqs"][ei]["lhs"][1] if spec["meqs"][ei]["lhs"][0] == "var" else ynames[ei]   # (equations need not follow the declaration order)
         for t in range(N):
             if not np.isfinite(Y[yname][t]):
                 continue
             if any(t + s < 0 for (_, s) in coefs):
                 continue
+            if any(nm in Y and nm != yname and not np.isfinite(Sd[nm][t + s]) for (nm, s) in coefs):
+                continue   # the equation refers to ANOTHER measurement variable that is not observed there (reported as NaN by design)
             val = sum(cf * Sd[nm][t + s] for (nm, s), cf in coefs.items()) + sum(cf * U[w][t] for w, cf in wco.items())
             if linear_levels:
                 val += lin.const_m[ei]
